@@ -39,7 +39,9 @@ import (
 	"runtime"
 	"strconv"
 	"sync"
+	"sync/atomic"
 	"testing"
+	"time"
 )
 
 // vwSUT is one fresh instance of the system under test, living inside one
@@ -176,17 +178,19 @@ type vwTrace struct {
 }
 
 type vwStats struct {
-	Edges        int `json:"edges"`
-	Covered      int `json:"covered"`
-	UnreachModel int `json:"unreachable_without_model_violation_or_drift"`
-	NotHit       int `json:"not_hit_scheduling"`
-	Paths        int `json:"paths"`
-	Steps        int `json:"steps"`
-	Resolved     int `json:"choices_resolved_by_code"`
-	Drift        int `json:"drift_paths"`
-	Walks        int `json:"random_walks"`
-	Written      int `json:"traces_written"`
-	DriftEdges   int `json:"edges_where_code_left_model"`
+	Edges        int  `json:"edges"`
+	Covered      int  `json:"covered"`
+	UnreachModel int  `json:"unreachable_without_model_violation_or_drift"`
+	NotHit       int  `json:"not_hit_scheduling"`
+	Paths        int  `json:"paths"`
+	Steps        int  `json:"steps"`
+	Resolved     int  `json:"choices_resolved_by_code"`
+	Drift        int  `json:"drift_paths"`
+	Walks        int  `json:"random_walks"`
+	Written      int  `json:"traces_written"`
+	DriftEdges   int  `json:"edges_where_code_left_model"`
+	Abandoned    int  `json:"abandoned_bubbles"`
+	Aborted      bool `json:"aborted"`
 }
 
 type vwWalker struct {
@@ -205,6 +209,46 @@ type vwWalker struct {
 	nextID  int
 	keep    int
 	st      vwStats
+	abort   atomic.Bool
+}
+
+// inBubble runs body in a bubble of its own.  If the code under test leaves a
+// goroutine blocked for good while a timer of the component keeps running,
+// the bubble can neither end nor be declared deadlocked; the trace has been
+// written by then (body is over), so the bubble is abandoned after a grace
+// period of real time, and after a few of those the whole walk is cut short
+// (an abandoned bubble keeps a CPU busy).
+func (w *vwWalker) inBubble(body func()) {
+	done := make(chan struct{})
+	var over atomic.Bool
+	go func() {
+		defer close(done)
+		w.fam.bubble(w.t, func() {
+			defer over.Store(true)
+			body()
+		})
+	}()
+	grace := 0
+	for {
+		select {
+		case <-done:
+			return
+		case <-time.After(20 * time.Millisecond):
+			if over.Load() {
+				grace++
+			}
+			if grace > 100 {
+				w.mu.Lock()
+				w.st.Abandoned++
+				if w.st.Abandoned >= 3 {
+					w.st.Aborted = true
+					w.abort.Store(true)
+				}
+				w.mu.Unlock()
+				return
+			}
+		}
+	}
 }
 
 const (
@@ -321,7 +365,10 @@ func (w *vwWalker) mark(ei int32) {
 // run executes one path: the plan first, then greedy extension over uncovered
 // edges (mode 0) or a random walk (mode 1, length = depth).
 func (w *vwWalker) run(start int32, plan []int32, rng *rand.Rand, mode, depth int) {
-	w.fam.bubble(w.t, func() {
+	if w.abort.Load() {
+		return
+	}
+	w.inBubble(func() {
 		sut := w.fam.newSUT(rng)
 		tr := &vwTrace{Fam: w.fam.name, Steps: []vwStep{}}
 		always := false
@@ -392,6 +439,9 @@ func (w *vwWalker) run(start int32, plan []int32, rng *rand.Rand, mode, depth in
 // claim hands out the next uncovered, reachable edge (in BFS order of its
 // source) that has attempts left.
 func (w *vwWalker) claim(cursor *int) (int32, bool) {
+	if w.abort.Load() {
+		return -1, false
+	}
 	w.mu.Lock()
 	defer w.mu.Unlock()
 	for *cursor < len(w.order) {
@@ -550,7 +600,7 @@ func vwStrict(t *testing.T, w *vwWalker, pf string, seed int64) {
 			t.Fatal(err)
 		}
 		rng := rand.New(rand.NewSource(seed + int64(p.ID)))
-		w.fam.bubble(t, func() {
+		w.inBubble(func() {
 			sut := w.fam.newSUT(rng)
 			tr := &vwTrace{Fam: w.fam.name, Steps: []vwStep{}}
 			defer func() {
